@@ -26,6 +26,7 @@ import (
 	"sync"
 
 	"github.com/tochemey/goakt/v4/actor"
+	"github.com/tochemey/goakt/v4/internal/verifhook"
 )
 
 // Generic terminal stage. Applies consumeFn to each element and manages
@@ -60,6 +61,7 @@ func newSinkActor(consumeFn func(any) error, onComplete func(), config StageConf
 func (a *sinkActor) PreStart(_ *actor.Context) error { return nil }
 
 func (a *sinkActor) Receive(rctx *actor.ReceiveContext) {
+	verifhook.At("stream.recv", rctx, 0, 0)
 	switch msg := rctx.Message().(type) {
 	case *stageWire:
 		a.upstream = msg.upstream
